@@ -99,7 +99,8 @@ func (c *Catalog) tagsFromTagsDirective(d *directive.Directive) ([]*Tag, *jerr.J
 		tn := TagName(name)
 
 		t, ok := c.Tags.Get(tn)
-		if !ok {
+		if !ok || t.automatic {
+			// Only the tags declared by the TAG directive can be referenced.
 			return nil, d.KeywordError(fmt.Sprintf("%s %q", jerr.TagNotFound, tn))
 		}
 
